@@ -445,6 +445,9 @@ func judge(j *job, r result) (laws []string, notes []string) {
 			}
 		}
 		switch {
+		case strings.Count(out, "query.evalPlaceholder(") >= 5:
+			// a placeholder in a USING list that reads itself (F118)
+			return []string{"runtime_fatal:placeholder_in_using"}, nil
 		case nUDF >= 5:
 			return []string{"runtime_fatal:udf_recursion"}, nil
 		case nStmt >= 10 && usesSource:
